@@ -55,7 +55,7 @@ macro_rules
   | `(tactic| view_auto) => `(tactic| first
       | (simp [*]; done)
       | (split <;>
-          (try (rename_i h; have hv := congrArg (fun p => view (Prod.fst p)) h; try simp at hv)) <;>
+          (try (rename_i h; have hv := congrArg (fun p => view (Prod.fst p)) h; try simp [*, -h] at hv)) <;>
           view_auto)
       | (dsimp only; view_auto))
 
